@@ -23,6 +23,7 @@ import (
 	"sort"
 	"strconv"
 	"strings"
+	"sync/atomic"
 	"time"
 	"verifharness/runner"
 
@@ -62,7 +63,7 @@ func usedTable(spec string, t codon.Table) string {
 	return tableText(t)
 }
 
-var throwAwayCount int
+var throwAwayCount atomic.Int64 // requests may run concurrently (VERIF_PAR)
 
 func c06Translate(s string, t codon.Table) (st, val string) {
 	defer func() {
@@ -71,8 +72,7 @@ func c06Translate(s string, t codon.Table) (st, val string) {
 		}
 	}()
 	// throw-away call that ends in a partial codon of one or two letters, alternating (see the header)
-	throwAwayCount++
-	if throwAwayCount%2 == 0 {
+	if throwAwayCount.Add(1)%2 == 0 {
 		_, _ = codon.Translate("GT", t)
 	} else {
 		_, _ = codon.Translate("G", t)
